@@ -64,6 +64,7 @@ class ItemSpec:
     iters: dict = field(default_factory=dict)
     closures: dict = field(default_factory=dict)
     forloops: dict = field(default_factory=dict)
+    closure_pats: dict = field(default_factory=dict)
     structural: bool = False
     vis_fields: bool = False
     no_prologue: bool = False
@@ -165,6 +166,9 @@ def parse_vc(text):
                 k, _, pat = rest.partition(' ')
                 sec = Section('eta', arg=pat.strip(), n=int(k), src_line=ln)
                 cur.sections.append(sec)
+            elif kw == 'closure-pat':
+                k, nm = rest.split()
+                cur.closure_pats[int(k)] = nm
             elif kw == 'closure-spec':
                 parts = rest.split(None, 2)
                 sec = Section(kw, arg='%s %s' % (parts[1], parts[2]), n=int(parts[0]), src_line=ln)
@@ -583,6 +587,37 @@ def weave_item(repo, spec):
             add_after(cl[k], '/*>R2x*/')
             rules['R2'] += 1
 
+    pat_closures = {}
+    if spec.closure_pats:
+        # R2 (general form): a closure parameter pattern Verus rejects becomes a variable, and the pattern moves
+        # into a `let` at the start of the closure body (Rust's own desugaring of closure parameter patterns)
+        cls = _closures(toks, body_open + 1, body_close)
+        for k, nm in spec.closure_pats.items():
+            if k >= len(cls):
+                raise Undecided('closure-pat %d: no such closure in %s' % (k, spec.name))
+            bo, bc, bs, be, is_block = cls[k]
+            if bc <= bo + 1:
+                raise Undecided('closure-pat %d: closure has no parameter in %s' % (k, spec.name))
+            pat_txt = src[toks[bo + 1].start:toks[bc - 1].end]
+            add_before(bo + 1, '/*R2<*/%s/*>R2*//*R2x<*/' % nm)
+            add_after(bc - 1, '/*>R2x*/')
+            rules['R2'] += 1
+            has_spec = any(s2.kind == 'closure-spec' and s2.n == k for s2 in spec.sections)
+            ptoks = [t.text for t in tokenize(pat_txt)]
+            if len(ptoks) == 2 and ptoks[0] == '&':
+                # `|&x|` : Verus has no reference patterns; `let &x = r` is `let x = *r` (x: Copy, checked by rustc)
+                pat_closures[k] = (nm, pat_txt, 'let %s = *%s;' % (ptoks[1], nm))
+            else:
+                pat_closures[k] = (nm, pat_txt, 'let %s = %s;' % (pat_txt, nm))
+            let_txt = '/*R2l<*/%s/*>R2l*/' % pat_closures[k][2]
+            if is_block:
+                add_after(bs, let_txt)
+            elif has_spec:
+                pass   # closure-spec emits the braces and the let
+            else:
+                add_after(bc, '/*R6<*/{/*>R6*/' + let_txt)
+                add_after(be, '/*R6<*/}/*>R6*/')
+
     for sec in spec.sections:
         if sec.kind == 'sig':
             if body_open < 0:
@@ -626,7 +661,10 @@ def weave_item(repo, spec):
             nm, ty = sec.arg.split(None, 1)
             if toks[bc + 1].text == '-':
                 raise Undecided('closure-spec %d: closure already has a return type in %s' % (sec.n, spec.name))
-            add_after(bc, '/*R6<*/ -> (%s: %s) /*>R6*/' % (nm, ty) + ghost(sec, 'H') + ('' if is_block else '/*R6<*/{/*>R6*/'))
+            let_txt = ''
+            if sec.n in pat_closures and not is_block:
+                let_txt = '/*R2l<*/%s/*>R2l*/' % pat_closures[sec.n][2]
+            add_after(bc, '/*R6<*/ -> (%s: %s) /*>R6*/' % (nm, ty) + ghost(sec, 'H') + ('' if is_block else '/*R6<*/{/*>R6*/' + let_txt))
             if not is_block:
                 add_after(be, '/*R6<*/}/*>R6*/')
             rules['R6'] += 1
@@ -721,7 +759,7 @@ def weave(repo, vc_text, incdir=None):
 # ---------------------------------------------------------------------------------------------
 # erasure check (independent of the weaver's bookkeeping: works on the woven text + a fresh extraction)
 
-_marker = re.compile(r'/\*(G<[HS]|>G|R0<|>R0|R1<|>R1|R2<|>R2|R2x<|>R2x|R3<|>R3|R3x<|>R3x|R4[a-ex]<|>R4[a-epx]|R4p<|R5<|>R5|R6<|>R6|R7<|>R7|R8<|>R8|ITEM<[^*]*|>ITEM)\*/')
+_marker = re.compile(r'/\*(G<[HS]|>G|R0<|>R0|R1<|>R1|R2<|>R2|R2x<|>R2x|R2l<|>R2l|R3<|>R3|R3x<|>R3x|R4[a-ex]<|>R4[a-epx]|R4p<|R5<|>R5|R6<|>R6|R7<|>R7|R8<|>R8|ITEM<[^*]*|>ITEM)\*/')
 
 
 def _check_ghost_form(seg, position, where):
@@ -804,6 +842,7 @@ def erase_check(repo, woven, items):
         counts = {'R0': 0, 'R1': 0, 'R2': 0, 'R3': 0, 'R4': 0, 'R5': 0, 'R6': 0, 'R7': 0, 'R8': 0, 'ghost_segments': 0}
         r8_open = None
         r4_pat, r4_name = [], []
+        r2_names, r2_pats = [], []
         for m in _marker.finditer(region):
             tag = m.group(1)
             if stack is None:
@@ -830,15 +869,29 @@ def erase_check(repo, woven, items):
                     counts['R1'] += 1
                 elif otag == 'R2<' and tag == '>R2':
                     st = [t.text for t in tokenize(seg)]
-                    if not (len(st) == 1 and re.fullmatch(r'_[A-Za-z0-9_]+', st[0])):
+                    if not (len(st) == 1 and re.fullmatch(r'[A-Za-z_][A-Za-z0-9_]*', st[0])):
                         raise Undecided('erasure: bad R2 segment %r in %s' % (seg, spec.name))
                     counts['R2'] += 1
+                    r2_names.append(st[0])
                 elif otag == 'R2x<' and tag == '>R2x':
                     # original token `_` kept here but must be deleted from the verified text: it is wrapped
                     # in a comment by the emitter (see finalize) -> seg must be exactly `_`
-                    if seg.strip() != '_':
+                    # the original parameter pattern: restored here, and remembered for the matching `let`
+                    st = [t.text for t in tokenize(seg)]
+                    if not st or '|' in st or ';' in st or '{' in st:
                         raise Undecided('erasure: bad R2x segment %r in %s' % (seg, spec.name))
-                    kept.append(' _ ')
+                    kept.append(' ' + seg + ' ')
+                    r2_pats.append(st)
+                elif otag == 'R2l<' and tag == '>R2l':
+                    st = [t.text for t in tokenize(seg)]
+                    ok = False
+                    for nm2, pat2 in zip(r2_names, r2_pats):
+                        if st == ['let'] + pat2 + ['=', nm2, ';']:
+                            ok = True
+                        if len(pat2) == 2 and pat2[0] == '&' and st == ['let', pat2[1], '=', '*', nm2, ';']:
+                            ok = True
+                    if not ok:
+                        raise Undecided('erasure: `let` of a closure parameter pattern does not match the original pattern: %r in %s' % (seg, spec.name))
                 elif otag == 'R3<' and tag == '>R3':
                     if seg.strip() != 'pub':
                         raise Undecided('erasure: bad R3 segment in %s' % spec.name)
